@@ -701,6 +701,32 @@ retsub
 ]
 
 
+def large_layout_programs(seed: int, n: int) -> List[Dict[str, Any]]:
+    """programs with 11..28 basic blocks whose handlers come first and whose dispatcher sits at the bottom (`b main` ...
+    `main:`), so that reported paths go through blocks with two-digit ids without visiting the blocks named by their
+    digits; at most 6 conditional branches (path search stays small); version 8 (backward jumps are valid since v4)"""
+    import random as _r
+    from spec import avm
+    rnd = _r.Random(seed * 104729 + 5)
+    out = []
+    while len(out) < n:
+        nh = rnd.randint(3, 6)                       # handlers
+        lines = ["#pragma version 8", "b main"]
+        for h in range(nh):
+            lines.append(f"H{h}:")
+            for c in range(rnd.randint(1, 4)):       # a chain of blocks inside the handler (labels make block leaders)
+                lines += [rnd.choice(["int 1\npop", "txn Fee\npop", "global GroupSize\npop", "txn Sender\npop"]), f"b H{h}_{c}", f"H{h}_{c}:"]
+            lines += [rnd.choice(["int 1", "txn NumAppArgs", "int 0"]), "return"]
+        lines.append("main:")
+        for h in range(nh - 1):
+            lines += ["txn NumAppArgs", f"int {h}", "==", f"bnz H{h}"]
+        lines += [f"b H{nh - 1}"]
+        src = "\n".join(lines) + "\n"
+        avm.parse(src)
+        out.append({"name": f"large/{len(out)}", "src": src})
+    return out
+
+
 def adversarial() -> List[Dict[str, Any]]:
     """the hand-written layouts; each is checked to assemble by the independent reference parser"""
     from spec import avm
@@ -1824,7 +1850,7 @@ def exports_faithful(tier: str = "quick", seed: int = 0, known: Any = None) -> D
     known_ids = set(known or [])
     _oracle_unit_checks()
     n_gen = 300 if tier == "quick" else 3000
-    progs = adversarial() + select_programs(n_gen, seed)
+    progs = adversarial() + large_layout_programs(seed, 24 if tier == "quick" else 240) + select_programs(n_gen, seed)
     base = tempfile.mkdtemp(prefix="verif_c18_")
     try:
         with mp.get_context("fork").Pool(16) as pool:
@@ -1873,7 +1899,8 @@ def exports_faithful(tier: str = "quick", seed: int = 0, known: Any = None) -> D
             "contract": "the exported DOT files, read back, have exactly the internal blocks (rows = line number + source text) and the global / local edge "
                         "sets with one call box per call site; each path file marks exactly the path's blocks; JSON: success <=> no error, count = "
                         "#paths, short = ids of the listed blocks = text-mode notation; --filter-paths P leaves exactly the paths with re.search(P, short) is None",
-            "bound": f"{len(progs)} programs ({len(progs) - len(_ADVERSARIAL)} of gen.programs(k=2, seed={seed}) spread over all shapes + {len(_ADVERSARIAL)} adversarial layouts); "
+            "bound": f"{len(progs)} programs (gen.programs(k=2, seed={seed}) spread over all shapes + {len(_ADVERSARIAL)} adversarial layouts + "
+                     f"{24 if tier == 'quick' else 240} handlers-first layouts with 11..28 blocks); "
                      f"per program: print cfg, print subroutine-cfg, print transaction-context, detect (text), detect --json -, detect with an unknown detector "
                      f"(error envelope), and for programs where some detector reports >= 2 paths the --filter-paths patterns {FILTER_PATTERNS[:4]} "
                      f"(every program) and {FILTER_PATTERNS[4:]} + 3 patterns derived from the longest reported notation "
